@@ -2,6 +2,7 @@ package props
 
 import (
 	"fmt"
+	"regexp"
 	"strings"
 	"time"
 
@@ -134,7 +135,15 @@ func propC16Uci(c uciLinesCase, o *hx.Obs) *hx.Failure {
 	}
 	o.Evals(len(c.Lines))
 	// still responsive
-	n := u.Count("readyok")
+	// the sequence itself may contain isready commands that are still queued: the final readyok is
+	// the one after all of theirs (a line is an isready command when its first token - split on
+	// white space without trimming, as the handler tokenizes - is "isready")
+	n := 0
+	for _, line := range c.Lines {
+		if len(line) > 0 && len(line) < 60000 && regexp.MustCompile(`\s+`).Split(line, -1)[0] == "isready" {
+			n++
+		}
+	}
 	u.Send("stop")
 	t := u.Send("isready")
 	if !u.WaitCount("readyok", n+1, 8*time.Second) {
